@@ -7,6 +7,7 @@ against the extracted Walk model fed with an independent unfolding of the tree."
 from lib import framework as fw
 from lib import fstree
 from props import walk_common as wc
+from props import known_common as kc
 
 RULE = ("(tree, follow mode, mindepth, maxdepth, -depth, starting points) configurations on random trees (<= 30 entries, depth <= 5, 22% symbolic "
         "links of 10 kinds); non-trivial = distinct configuration whose expected visit sequence has at least 3 entries or contains a diagnosed entry")
@@ -89,6 +90,7 @@ def run(ctx):
         for c in cases[:4]:
             ctx.sample(wc.describe(forest, c))
         report(ctx, forest, bad)
+        kc.path_max(ctx, "C02", forest.dir)
     finally:
         forest.close()
 
